@@ -26,7 +26,7 @@ META = {
         "0..3 Define statements over two names (redefinitions) and 0..3 ModelAlias statements over two names (bodies without "
         "parameters / numeric / word / Define'd / negated Define'd parameters / multi-line) in EVERY assignment to the 4 gaps "
         "before, between and after 3 Decay blocks (585 placements each), each with usage vectors (name used 0..3 times in each "
-        "block) walked cyclically through all 64 (1 per placement in the quick tier, 12 in the thorough tier); 81 texts with "
+        "block) walked cyclically through all 64 (1 per placement in the quick tier, 8 in the thorough tier); 81 texts with "
         "CopyDecay'd and CDecay'd tables (definitions before / between / after, redefinitions, 1..3 uses); 24 large texts "
         "(6 blocks x 6 lines, 6 Define'd names, 4 aliases, 3 redefinitions, definitions rotating through 7 gaps). Thorough adds a "
         "seeded random supplement and the shipped files (reader comparison only). Out of reach: larger files; ModelAlias of a "
@@ -48,7 +48,7 @@ META = {
 def items_for(tier, seed):
     pairs = G.c05_all(tier)
     if tier == "thorough":
-        pairs += G.random_supplement(3000, seed, "C05")
+        pairs += G.random_supplement(2000, seed, "C05")
     pairs = H.dedupe(pairs)
     if tier == "thorough":
         random.Random(seed).shuffle(pairs)
@@ -61,10 +61,10 @@ def items_for(tier, seed):
 def run(tier: str = "quick", seed: int = 0) -> dict:
     items = items_for(tier, seed)
     results = H.run_items("C05", items)
-    reps = 1 if tier == "quick" else 12
+    reps = 1 if tier == "quick" else 8
     bound = (f"0..3 Define / 0..3 ModelAlias statements over 2 names in every assignment to the 4 gaps around 3 blocks x {reps} of the 64 "
              "usage vectors (0..3 uses per block); 81 texts with copied + conjugated tables; large texts 6 blocks x 6 lines x 6 names"
-             + ("; + 3000 seeded random texts, shipped files (reader comparison only)" if tier == "thorough" else ""))
+             + ("; + 96 large texts, 2000 seeded random texts, shipped files (reader comparison only)" if tier == "thorough" else ""))
     entry = H.summarise("C05", "C05.parse.expansion_equivalence", FUNCTION, bound, RULE, results, exhaustive=True)
     entry["samples"] = H.samples_of(items)
     return {"bounded": [entry], "obligations": []}
